@@ -71,6 +71,28 @@ fn case(k: usize, n: usize) -> Result<(), String> {
             ensure!(par.to_bits() == seq.to_bits() || (par.is_nan() && seq.is_nan()), "workers={} length={}: entry {} at index {}: dot_f64 = {} but dot = {}", k, n, v, j, par, seq);
         }
     }
+    // products that are NOT exact while every partial sum of the rounded products is: x = (1, a, 1, a, ..), w = (-(1 + 2^-26), a, ..) with
+    // a = 1 + 2^-27; fl(a * a) = 1 + 2^-26, so every product is +-(1 + 2^-26) and any sum of them is a small multiple of it. Only
+    // re-association is allowed to differ from the sequential dot - a fused multiply-add is not a re-association
+    {
+        let a27 = 1.0 + 2f64.powi(-27);
+        let u = 1.0 + 2f64.powi(-26);
+        let x: Vec<f64> = (0..n).map(|i| if i % 2 == 0 { 1.0 } else { a27 }).collect();
+        let w: Vec<f64> = (0..n).map(|i| if i % 2 == 0 { -u } else { a27 }).collect();
+        let (vx, vw) = (Vector::create(x), Vector::create(w));
+        let (seq, par) = (vx.dot(&vw), vx.dot_f64(&vw));
+        let want = if n % 2 == 0 { 0.0 } else { -u };
+        ensure!(seq.to_bits() == want.to_bits(), "sequential dot on the rounded-product data: {:e} expected {:e}", seq, want);
+        ensure!(par.to_bits() == seq.to_bits(), "workers={} length={}: inexact products with exact partial sums: dot_f64 = {:e} but dot = {:e}", k, n, par, seq);
+    }
+    // every product is -0.0 (a zero vector against a negative one, a -0.0 vector against a positive one): the sequential sum starts from
+    // +0.0 and stays +0.0
+    for (xv, wv) in [(0.0f64, -1.0f64), (-0.0, 2.0)] {
+        let (vx, vw) = (Vector::create(vec![xv; n]), Vector::create(vec![wv; n]));
+        let (seq, par) = (vx.dot(&vw), vx.dot_f64(&vw));
+        ensure!(seq.to_bits() == 0.0f64.to_bits(), "sequential dot of all -0.0 products = {:?}", seq);
+        ensure!(par.to_bits() == seq.to_bits(), "workers={} length={}: all products -0.0: dot_f64 = {:?} (bits {:#x}) but dot = {:?}", k, n, par, par.to_bits(), seq);
+    }
     // call sequences on one thread: after a long call, shorter ones (fewer elements than workers, none at all) must not see stale state
     for m in [0usize, k.saturating_sub(1).min(n), 1usize.min(n)] {
         let (a, b) = integer_data(m);
@@ -84,7 +106,7 @@ fn case(k: usize, n: usize) -> Result<(), String> {
 fn main() {
     let ctx = Ctx::from_args("C16");
     ctx.level("model_checking");
-    ctx.rule("Configuration sweep (guard off, real OS threads): every worker count k = 1..min(16, CPUs available) - set through the CPU affinity of the calling thread and confirmed by num_cpus::get() == k - x every length 0..=200: integer-valued data must be bit-identical to the sequential dot and to an exact i128 dot product; reassociation-sensitive data must stay within 4 n eps sum|a_i b_i| and be bit-identical over repeated calls; one infinite, NaN or 1e308 entry among small integers (a value every association agrees on) must give the sequential result; each case ends with a sequence of shorter calls (length 0, < workers, 1) on the same thread, which must be exact (no state carried between calls). Non-trivial: lengths below, equal to, above and not divisible by the worker count with k >= 2.");
+    ctx.rule("Configuration sweep (guard off, real OS threads): every worker count k = 1..min(16, CPUs available) - set through the CPU affinity of the calling thread and confirmed by num_cpus::get() == k - x every length 0..=200: integer-valued data must be bit-identical to the sequential dot and to an exact i128 dot product; reassociation-sensitive data must stay within 4 n eps sum|a_i b_i| and be bit-identical over repeated calls; one infinite, NaN or 1e308 entry among small integers (a value every association agrees on) must give the sequential result; data whose products are inexact but whose rounded products have exact partial sums, and data whose products are all -0.0, must be bit-identical to the sequential dot; each case ends with a sequence of shorter calls (length 0, < workers, 1) on the same thread, which must be exact (no state carried between calls). Non-trivial: lengths below, equal to, above and not divisible by the worker count with k >= 2.");
     ctx.assume("the sweep runs free (uncontrolled OS scheduling): it decides the configuration/length quantifiers; scheduling independence is decided by the shuttle exploration");
     let cpus = allowed_cpus();
     let kmax = cpus.len().min(16);
